@@ -15,7 +15,7 @@ LEVEL = "exploration"
 CASES = {"quick": 2500, "thorough": 320000}
 RULE = ("seeded random programs of 12-30 public DataFrame operations over a pool of 3 live frames (constructors, row subsetting, sort, "
         "unique, five joins, rbind/cbind/update, modify scalar/vector/callable/grouped, select/unselect/rename, item/attribute assignment "
-        "and deletion, pop/popitem, colnames=, copy/deepcopy/clear, aggregate/count, converters, deliberately wrong-length assignments) "
+        "and deletion, pop/popitem, colnames=, copy/deepcopy/clear, aggregate/count, converters, file writers+readers, deliberately wrong-length assignments) "
         "over all column dtypes incl. 0-row/0-column/1-row/all-missing shapes and method-named / non-identifier column names; after every "
         "step the monitors check rectangularity, accessor agreement, key/attribute coherence, scalar broadcast, rejection of wrong "
         "lengths, removal; non-trivial = program executed >= 8 steps successfully; distinct = distinct executed operation sequences")
@@ -26,7 +26,7 @@ ASSUMPTIONS = [
     "stable order is asserted for operations that do not change the column set (and select gives the requested order); update is exempt",
 ]
 REACH = {"quick": {"rect-checks": 50000, "attr-checks": 50000, "removed-checks": 2000, "broadcast-checks": 1000, "wrong-length-rejected": 500, "order-checks": 5000,
-                   "ok:delattr": 100, "ok:delitem": 100, "ok:pop": 100, "ok:colnames": 100, "ok:full_join": 100, "ok:rbind": 100, "ok:new_kwargs": 100}}
+                   "ok:delattr": 100, "ok:delitem": 100, "ok:pop": 100, "ok:colnames": 100, "ok:full_join": 100, "ok:rbind": 100, "ok:new_kwargs": 100, "ok:file_roundtrip": 100}}
 
 def generate(rng, tier):
     return {"pseed": rng.getrandbits(48), "nsteps": rng.randint(12, 30), "kinds": "all" if rng.random() < 0.3 else "safe"}
